@@ -1,5 +1,5 @@
 (* C03 — incidence tables are exact transposes of one another. Statements only. *)
-From Verif Require Import Base C02 C02_sup C03 C03_proofs C03_C02_proofs C03_C02_sup_proofs.
+From Verif Require Import Base C02 C02_sup C03 C03_proofs C03_C02_proofs C03_C02_sup_proofs C03_ff_pipeline_proofs.
 
 (* edge_face row e = (first face listing e, last face listing e or padding); loop-order model *)
 Theorem C03_edge_face : forall fe npf n e,
@@ -108,3 +108,14 @@ Theorem C03_supplied_edge_face_pipeline : forall m t S, std_table m t -> forall 
   = c03_row_of (c03_occ (sr_face_edges R) (n_nodes_per_face t) e).
 Proof. exact sup_edge_face_of_table. Qed.
 Print Assumptions C03_supplied_edge_face_pipeline.
+
+(* ---- face_face of the whole pipeline on a manifold table ---- *)
+(* row f of face_face_connectivity lists g once per edge whose two faces are exactly f and g *)
+Theorem C03_face_face_pipeline : forall m t f g, std_table m t ->
+  let FE := face_edges t m in let NPF := n_nodes_per_face t in let n := length (edges t) in
+  (forall e, (e < n)%nat -> (length (c03_occ FE NPF e) <= 2)%nat) ->
+  f <> g ->
+  count_occ Z.eq_dec (c03_neighbours (c03_edge_faces FE NPF n) f) g
+  = length (filter (fun e => occ_is f g (c03_occ FE NPF e)) (seq 0 n)).
+Proof. exact face_face_of_table. Qed.
+Print Assumptions C03_face_face_pipeline.
